@@ -268,7 +268,7 @@ def addr_of(cx, n, addr_taken=False):
 
 
 INLINABLE = {"libwifi_tag_iterator_init", "libwifi_tag_iterator_next"}
-INLINE_IN = {"libwifi_check_tag", "libwifi_remove_tag"}
+INLINE_IN = {"libwifi_check_tag", "libwifi_remove_tag", "libwifi_bss_tag_parser", "libwifi_sta_tag_parser"}
 FNMAP = {}          # name -> (function node, source bytes, path)
 
 
